@@ -639,7 +639,9 @@ fn low_level_uncompress_bytes(
 }
 
 fn determine_pseudo_phase(lg_k: u8, num_coupons: u32) -> u8 {
-    let k = 1 << lg_k;
+    // 64-bit arithmetic: 1000 * C and 2375 * K exceed u32 for lg_k >= 21 (and for C >= 2^22).
+    let k = 1u64 << lg_k;
+    let num_coupons = num_coupons as u64;
     // This mid-range logic produces pseudo-phases. They are used to select encoding tables.
     // The thresholds were chosen by hand after looking at plots of measured compression.
     if 1000 * num_coupons < 2375 * k {
